@@ -8,6 +8,7 @@ import json
 from decimal import Decimal
 
 import gdrg
+import xmlvar
 import rfeel
 import runner
 from common import crash_signature, panic_signature, rng_for
@@ -112,6 +113,11 @@ def run(rep, tier, seed):
     cases, meta = [], []
     for m in models:
         xml = gdrg.to_xml(m)
+        if len(cases) % 2 == 1:
+            # the same model in another XML spelling (prefixes, attribute order, quotes, CDATA / character references, comments and
+            # white space between elements ...): the value oracle judges it like the plain spelling
+            xml, style = xmlvar.vary(xml, rng)
+            rep.bump("models_in_a_varied_xml_spelling")
         invocables = [d["name"] for d in m["decisions"]] + [s["name"] for s in m["services"]] + [b["name"] for b in m["bkms"]]
         calls, cmeta = [], []
         for inv in invocables:
